@@ -69,6 +69,8 @@ TraceNext == TNew \/ TOpened \/ TClosed \/ TRunEnter \/ TRunExit \/ TReturn \/ T
 TraceSpec == TraceInit /\ [][TraceNext]_vars
 
 WF == Cardinality(open) <= 1
+\* states of a trace are told apart by the line counter alone (cheap fingerprints)
+TraceView == l
 TraceAccepted == TLCGet("stats").diameter - 1 = Len(Trace)
 ReportKF == (l = Len(Trace) + 1) => PrintT(<<"KF", kf>>)
 =============================================================================
